@@ -630,6 +630,25 @@ pub fn run_episode(ep: &Episode, pristine: &Pristine) -> EpisodeResult {
             }
             let mut rng = crate::rng::Rng::new(ep.seed ^ 0x0D_E3A5D);
             let mut picks = Vec::new();
+            // states that depend on something outside the process (a file behind an image option)
+            // can be wrong consistently inside it: those go to a fresh process first
+            let external: Vec<&String> = o
+                .first_seen_order
+                .iter()
+                .filter(|k| {
+                    o.table
+                        .get(*k)
+                        .and_then(|s| s.spec.as_ref())
+                        .and_then(|sp| sp.render.as_ref())
+                        .map(|(_, setters)| setters.iter().any(|s| matches!(s, RSetter::Image(ImageSpec::File(_)))))
+                        .unwrap_or(false)
+                })
+                .collect();
+            if !external.is_empty() {
+                let k = external[external.len() - 1 - rng.usize_below(external.len().min(2))];
+                let seen = &o.table[k];
+                picks.push((k.clone(), seen.spec.clone().unwrap(), seen.outcome.clone(), seen.origin.clone()));
+            }
             for _ in 0..n_ondemand {
                 let pool = if !once.is_empty() && (many.is_empty() || rng.chance(3, 4)) { &mut once } else { &mut many };
                 if pool.is_empty() {
